@@ -113,6 +113,21 @@ Fixpoint get_many (lay : layout) (c : path) (xs : list name) (cleaned : bool) : 
         end)
   end.
 
+(* discover(path) of the item a request targets: when storing the cache entry fails, _get returns None
+   (skip_broken_item) and the handler answers "not found" / "conflict" without calling the operation *)
+Definition get_target (lay : layout) (c : path) (x : name) : P :=
+  Read (c ++ [x]) (fun n =>
+    match n with
+    | Some (F v) =>
+        Read (cache_dir lay CItem c ++ [x]) (fun cn =>
+          let miss := Seq (Catch (store_cache lay c x v) (fun _ => Raise EVal)) (clean_item_cache lay c) in
+          match cn with
+          | Some (F cv) => if N.eqb cv (cache_code v) then Ret else miss
+          | _ => miss
+          end)
+    | _ => Ret
+    end).
+
 (* _update_history_etag(href x, item with content ov) *)
 Definition update_history (lay : layout) (c : path) (x : name) (ov : option N) : P :=
   let hd := cache_dir lay CHist c in
@@ -273,15 +288,15 @@ Definition request_prog (lay : layout) (r : request) : P :=
       (* discover(path) -> _get(h); new item: has_uid -> get_all; upload *)
       Read (c ++ [h]) (fun n =>
         match n with
-        | Some (F _) => Seq (get_many lay c [h] false) (upload lay c h v exp)
+        | Some (F _) => Seq (get_target lay c h) (upload lay c h v exp)
         | _ => Seq (get_many lay c names false) (upload lay c h v exp)
         end)
-  | RDeleteItem c h exp => Seq (get_many lay c [h] false) (delete_item lay c h exp)
+  | RDeleteItem c h exp => Seq (get_target lay c h) (delete_item lay c h exp)
   | RDeleteColl c names =>
       (* item.etag -> get_all; get_all for the hook notifications; delete *)
       seqs [get_many lay c names false; get_many lay c names true; delete_coll c]
   | RMove c h c' h' v names' exp exp' =>
-      seqs [get_many lay c [h] false;
+      seqs [get_target lay c h;
             Read (c' ++ [h']) (fun n =>
               match n with
               | Some (F _) => get_many lay c' [h'] false
